@@ -8,8 +8,12 @@ package harness
 import (
 	"context"
 	"fmt"
+	"runtime"
 	"sort"
+	"strconv"
 	"strings"
+	"sync"
+	"time"
 
 	"github.com/hashicorp/hcl-lang/decoder"
 	"github.com/hashicorp/hcl-lang/lang"
@@ -76,11 +80,11 @@ type Faults struct {
 var FaultKinds = []string{
 	"reader_error", "path_unlisted", "paths_order", "stale_targets", "stale_origins", "job_dropped",
 	"schema_swap", "hook_error", "hook_partial", "hook_empty", "hook_overflow", "lens_error",
-	"limit_knob", "prefill", "preempt", "hook_call", "origins_order",
+	"limit_knob", "prefill", "preempt", "hook_call", "origins_order", "hook_foreign_goroutine",
 }
 
 type Stats struct {
-	Fired [17]int64
+	Fired [18]int64
 }
 
 // fire is norace: concurrent tasks share the store, and the simulator's own
@@ -106,6 +110,7 @@ type Store struct {
 	Stats   Stats
 	pending []*pendingJob
 	Limit     uint // limit knob communicated to overflow hooks (0 = 100)
+	hooks     *hookSeq
 }
 
 func NewStore(w *world.World) *Store {
@@ -153,12 +158,101 @@ func NewStore(w *world.World) *Store {
 	return s
 }
 
+// hookSeq sequences hook calls the library makes from goroutines of its own.
+// The library as it stands calls hooks one after another on the caller's
+// goroutine and none of this takes effect. If it ever runs them concurrently,
+// their finishing order is a scheduling decision the simulator must own: the
+// query's order policy decides which hook is held back until the other one has
+// returned (bounded wait, so a hook that is never called cannot stall a run).
+type hookSeq struct {
+	mu      sync.Mutex
+	caller  int64
+	reverse bool
+	done    map[string]chan struct{}
+	foreign int
+}
+
+func (hs *hookSeq) doneCh(name string) chan struct{} {
+	hs.mu.Lock()
+	defer hs.mu.Unlock()
+	ch, ok := hs.done[name]
+	if !ok {
+		ch = make(chan struct{})
+		hs.done[name] = ch
+	}
+	return ch
+}
+
+// goid returns the id of the calling goroutine (parsed from its stack header).
+func goid() int64 {
+	var buf [64]byte
+	n := runtime.Stack(buf[:], false)
+	f := strings.Fields(string(buf[:n]))
+	if len(f) < 2 {
+		return -1
+	}
+	id, err := strconv.ParseInt(f[1], 10, 64)
+	if err != nil {
+		return -1
+	}
+	return id
+}
+
+// BeginQuery / EndQuery bracket one solo query (not used inside concurrent rounds).
+func (s *Store) BeginQuery(policy string) {
+	s.hooks = &hookSeq{caller: goid(), reverse: policy == "desc" || policy == "pinlast", done: map[string]chan struct{}{}}
+}
+
+func (s *Store) EndQuery() {
+	if hs := s.hooks; hs != nil && hs.foreign > 0 {
+		for i := 0; i < hs.foreign; i++ {
+			s.Stats.fire("hook_foreign_goroutine")
+		}
+	}
+	s.hooks = nil
+}
+
 func (s *Store) runHook(ctx context.Context, h world.HookSpec, value cty.Value) ([]decoder.Candidate, error) {
-	s.Stats.fire("hook_call")
+	if hs := s.hooks; hs != nil && goid() != hs.caller {
+		hs.mu.Lock()
+		hs.foreign++
+		hs.mu.Unlock()
+		// two stub hooks exist (h1, h2): hold one back until the other returned
+		first, second := "h1", "h2"
+		if hs.reverse {
+			first, second = "h2", "h1"
+		}
+		if h.Name == second {
+			select {
+			case <-hs.doneCh(first):
+			case <-time.After(150 * time.Millisecond):
+			}
+		}
+		defer func() {
+			ch := hs.doneCh(h.Name)
+			hs.mu.Lock()
+			select {
+			case <-ch:
+			default:
+				close(ch)
+			}
+			hs.mu.Unlock()
+		}()
+		return s.runHookBody(ctx, h, value, true)
+	}
+	return s.runHookBody(ctx, h, value, false)
+}
+
+func (s *Store) runHookBody(ctx context.Context, h world.HookSpec, value cty.Value, foreign bool) ([]decoder.Candidate, error) {
+	if !foreign {
+		s.Stats.fire("hook_call")
+	}
 	mode := h.Behaviour
 	if s.Faults.HookMode != "" {
 		mode = s.Faults.HookMode
-		s.Stats.fire("hook_" + mode)
+		if !foreign {
+			s.Stats.fire("hook_" + mode)
+		}
 	}
 	prefix := ""
 	if value.Type() == cty.String && !value.IsNull() && value.IsKnown() {
